@@ -24,3 +24,4 @@ open GqlVerif.C18
 #print axioms flag_written_as_kv_is_on
 #print axioms empty_list_is_ok
 #print axioms non_string_value_is_error
+#print axioms derive_keys_match_source
